@@ -141,6 +141,8 @@ def run_property(prop, spec, tier, seed, only=None, jobs=10):
         validate_sequential_events(res, mir_path, extra, prop, tier, jobs)
     if model == "region_cached" and not only:
         validate_sequential_rc(res, mir_path, prop, tier, jobs)
+    if model == "future_deque" and not only:
+        validate_sequential_fd(res, mir_path, prop, tier, jobs)
     fnset = set()
     for (name, wargs), d in zip(scs, results):
         v = d.get("verdict")
@@ -330,6 +332,88 @@ def validate_sequential_rc(res, mir_path, prop, tier, jobs):
     if cases:
         res["samples"].append(dict(engine="mirproto", kind="sequential translation validation (model vs real crate through the public API)", cases=len(cases), agreeing=ok,
                                    compared=["value returned by every read"], example=dict(scenario=RC.prog_name(cases[0][0]), order=cases[0][1], ops=out[0][2], model=out[0][0].get("final"), native=out[0][1])))
+    print("[mirproto] sequential validation against the real code: %d/%d orders agree" % (ok, len(cases)), flush=True)
+
+
+def validate_sequential_fd(res, mir_path, prop, tier, jobs):
+    """Translation validation for the future_deque model: every scenario with ordinary task wakers, its operations run one
+    at a time in every order that respects the two programs (the waker thread starts after the first deque poll handed it
+    the waker) - in the model (pinned schedule) and on the real crate through the public API (native/future_deque_seq);
+    the number of polls of the contained future and the number of invocations of each task waker must agree."""
+    import shutil
+    from mirproto import future_deque_model as FD
+    nd = os.path.join(VERIF, "native", "future_deque_seq")
+    cache = os.environ.get("FOLO_VERIF_CACHE") or os.path.join(VERIF, ".cache")
+    work = os.path.join(cache, "native_src", "future_deque_seq")
+    tdir = os.path.join(cache, "native", "future_deque_seq")
+    try:
+        shutil.rmtree(work, ignore_errors=True)
+        shutil.copytree(nd, work, ignore=shutil.ignore_patterns("target", "Cargo.lock"))
+        ct = os.path.join(work, "Cargo.toml")
+        txt = open(ct).read().replace('"/repo/packages/', '"%s/packages/' % M.REPO)
+        open(ct, "w").write(txt)
+        shutil.copyfile(os.path.join(M.REPO, "Cargo.lock"), os.path.join(work, "Cargo.lock"))
+        env = dict(os.environ)
+        env["CARGO_NET_OFFLINE"] = "true"
+        env.pop("RUSTFLAGS", None)
+        b = subprocess.run(["cargo", "build", "-q", "--offline", "--target-dir", tdir], cwd=work, env=env, capture_output=True, text=True, timeout=1200)
+        exe = os.path.join(tdir, "debug", "folo_verif_future_deque_seq")
+        if b.returncode != 0 or not os.path.exists(exe):
+            res["noverdict"].append(("sequential-validation", "native build failed: " + b.stderr[-400:]))
+            return
+    except Exception as e:  # noqa: BLE001
+        res["noverdict"].append(("sequential-validation", str(e)[-400:]))
+        return
+
+    def merges(a, b):
+        if not a:
+            return [list(b)]
+        if not b:
+            return [list(a)]
+        return [[a[0]] + r for r in merges(a[1:], b)] + [[b[0]] + r for r in merges(a, b[1:])]
+    cases = []
+    for sc in FD.QUICK:
+        if len(sc) > 3 and sc[3]:
+            continue
+        fut, own, wk = sc[:3]
+        dops = ["P%s" % it[1] if not isinstance(it, str) else "D" for it in own]
+        for rest in merges([(0, x) for x in dops[1:]], [(1, x) for x in wk]):
+            pin = [0, 0, 1] + [t for (t, _) in rest]
+            ops = [dops[0]] + [x for (_, x) in rest]
+            cases.append((sc, pin, ops))
+    out = [None] * len(cases)
+    sem = threading.Semaphore(jobs)
+
+    def go(i, sc, pin, ops):
+        with sem:
+            d = worker(["scenario", "--mir", mir_path, "--prop", prop, "--model", "future_deque", "--programs", json.dumps(sc[:3]),
+                        "--pin", ",".join(map(str, pin)), "--kcap", "96", "--timeout", "600"], 1500)
+            try:
+                nres = subprocess.run([exe, ",".join(sc[0]), ",".join(ops)], capture_output=True, text=True, timeout=60)
+                nat = json.loads(nres.stdout.strip().splitlines()[-1]) if nres.returncode == 0 else dict(error="native rc=%s %s" % (nres.returncode, nres.stderr[-200:]))
+            except Exception as e:  # noqa: BLE001
+                nat = dict(error=str(e))
+            out[i] = (d, nat)
+    ths = [threading.Thread(target=go, args=(i,) + c) for i, c in enumerate(cases)]
+    for th in ths:
+        th.start()
+    for th in ths:
+        th.join()
+    ok = 0
+    for (sc, pin, ops), (d, nat) in zip(cases, out):
+        name = "%s ops %s" % (FD.prog_name(sc), ",".join(ops))
+        if d.get("verdict") != "pinned":
+            res["noverdict"].append(("sequential-validation " + name, "model: %s %s" % (d.get("verdict"), str(d.get("detail"))[:200])))
+            continue
+        fin = d["final"]
+        if nat.get("error") or fin.get("bad") or fin.get("race") or fin.get("future_polls") != nat.get("future_polls") or fin.get("woken") != nat.get("woken"):
+            res["noverdict"].append(("sequential-validation " + name, "model and real code disagree: model %s, native %s" % (fin, nat)))
+        else:
+            ok += 1
+    res["totals"]["traces_validated"] += ok
+    if cases:
+        res["samples"].append(dict(engine="mirproto", kind="sequential translation validation (model vs real crate through the public API)", cases=len(cases), agreeing=ok,
+                                   compared=["polls of the contained future", "invocations of task waker 1 / 2"], example=dict(scenario=FD.prog_name(cases[0][0]), ops=cases[0][2], model=out[0][0].get("final"), native=out[0][1])))
     print("[mirproto] sequential validation against the real code: %d/%d orders agree" % (ok, len(cases)), flush=True)
 
 
